@@ -204,6 +204,23 @@ def _execute(ctx):
                  pair_bars_seen=collections.defaultdict(list))
         light = ctx.light
         V = ctx.V
+        M["in_api"] = 0
+        watch = None if light else asyncio.Event()
+
+        async def watcher():
+            # "at every point of a backtest": the exchange's calls do not suspend, so the account is only ever seen
+            # between calls. Should one suspend half way (and let other handlers run), the account is looked at right
+            # there, on every loop iteration for a few iterations, not only when another handler happens to call.
+            while True:
+                await watch.wait()
+                watch.clear()
+                for _ in range(6):
+                    await asyncio.sleep(0)
+                    if M["in_api"] <= 0:
+                        break
+                    ctx.probes["exchange_call_found_suspended"] += 1
+                    M["dirty"] = True
+                    await guarded(observe("while an exchange call is suspended"))
 
         def est_price(kind, lim, stp, pi):
             if kind in ("limit", "stoplimit"):
@@ -805,8 +822,14 @@ def _execute(ctx):
             """wraps one API call with before/after observation (C07)"""
             before = None if light else await snapshot()
             M["dirty"] = True
+            M["in_api"] += 1
+            if watch is not None:
+                watch.set()
             try:
-                r = await coro_fn()
+                try:
+                    r = await coro_fn()
+                finally:
+                    M["in_api"] -= 1
                 ctx.trace.append((name, "ok"))
                 return True, r
             except Exception as x:
@@ -1423,11 +1446,15 @@ def _execute(ctx):
             # not after the last bar: operations in the final flush of jobs happen after the last event was handled,
             # when no subscriber can be told about them any more
             d.schedule(tmin(min(j["at"], last_k)), job)
+        wt = asyncio.ensure_future(watcher()) if watch is not None else None
         try:
             await d.run(stop_signals=[])
             ctx.outcome = "returned"
         except (Exception, asyncio.CancelledError) as x:
             ctx.outcome = f"raised {type(x).__name__}: {x}"
+        finally:
+            if wt is not None:
+                wt.cancel()
         # ------------------------------------------------------------ end of run
         if ctx.outcome == "returned":
             await guarded(observe("end"))
